@@ -150,6 +150,18 @@ func c13r1(c *Ctx) {
 			}
 		}
 	}
+	// map iteration that does not show up as ssa.Range (library helpers, reflection): not analysed, so not accepted
+	for g, site := range set.closure.Leaves {
+		id := g.String()
+		if o := g.Origin(); o != nil {
+			id = o.String()
+		}
+		switch id {
+		case "maps.Keys", "maps.Values", "maps.All", "golang.org/x/exp/maps.Keys", "golang.org/x/exp/maps.Values",
+			"(reflect.Value).MapKeys", "(reflect.Value).MapRange", "k8s.io/apimachinery/pkg/util/sets.KeySet":
+			c.Ob(site.Parent(), "map-iteration-helper:"+g.Name(), site, c.rule.Statement).Unknown("%s iterates a map in unspecified order; this form is not analysed by the lint — sort the result or range over the map directly", id)
+		}
+	}
 	// admitted sprig functions that expose map order (frozen table; source-checked in the thorough tier)
 	allow, anchor := c13AllowList(c)
 	if allow == nil {
@@ -674,17 +686,39 @@ func c13r3(c *Ctx) {
 			if nUpd != 1 {
 				problems = append(problems, fmt.Sprintf("expected one store of the entry, found %d", nUpd))
 			}
-			// returns: a return without the update is allowed only under ok == false
-			for _, rc := range p.returnCases(addOne) {
-				updated := p.mustPrecede(rc.Ret, func(in ssa.Instruction) bool { _, is := in.(*ssa.MapUpdate); return is })
-				if updated {
-					if !p.mustPrecede(rc.Ret, func(in ssa.Instruction) bool { return c13IsAppendOfParam(in, addOne.Params[2]) }) {
-						problems = append(problems, "entry stored without appending the objects")
-					}
+			// on the ok==true edge of the lookup test, every path to a return appends the objects and stores the entry
+			tested := false
+			for _, b := range addOne.Blocks {
+				iff, isIf := lastIf(b)
+				if !isIf || okVal == nil {
 					continue
 				}
-				if okVal == nil || p.boolFromFacts(rc.Facts, okVal) != noTri {
-					problems = append(problems, "returns without storing the objects on a path where the phase exists (facts: "+strings.Join(factStrings(p, rc.Facts), ", ")+")")
+				var okSucc *ssa.BasicBlock
+				if iff.Cond == okVal {
+					okSucc = b.Succs[0]
+				} else if u, isU := iff.Cond.(*ssa.UnOp); isU && u.Op == token.NOT && u.X == okVal {
+					okSucc = b.Succs[1]
+				}
+				if okSucc == nil || len(okSucc.Instrs) == 0 {
+					continue
+				}
+				tested = true
+				isUpd := func(in ssa.Instruction) bool { _, is := in.(*ssa.MapUpdate); return is }
+				first := okSucc.Instrs[0]
+				if !isUpd(first) && !p.mustFollow(first, isUpd, nil) {
+					problems = append(problems, "returns without storing the objects on a path where the phase exists")
+				}
+			}
+			if !tested {
+				problems = append(problems, "the result of the phase lookup is not tested")
+			}
+			for _, b := range addOne.Blocks {
+				for _, in := range b.Instrs {
+					if mu, isMU := in.(*ssa.MapUpdate); isMU {
+						if !p.mustPrecede(mu, func(x ssa.Instruction) bool { return c13IsAppendOfParam(x, addOne.Params[2]) }) {
+							problems = append(problems, "entry stored without appending the objects")
+						}
+					}
 				}
 			}
 			if len(problems) == 0 {
@@ -845,6 +879,12 @@ func c13r3(c *Ctx) {
 		for _, call := range callsIn(collect) {
 			if !sortFuncs[calleeID(call.Common)] {
 				continue
+			}
+			if len(call.Common.Args) == 0 {
+				continue
+			}
+			if _, resliced := stripConv(call.Common.Args[0]).(*ssa.Slice); resliced {
+				continue // sorts only a sub-slice
 			}
 			for _, a := range call.Common.Args {
 				if mc, ok := a.(*ssa.MakeClosure); ok {
